@@ -236,6 +236,7 @@ pub fn stacks() -> Vec<(&'static str, Vec<Value>)> {
         ("some_int", vec![Value::Option(Some(Box::new(Value::Int(1))))]),
         ("struct_empty,ident_x,int", vec![Value::Struct(Struct::new(x(), Vec::<(Identifier, Value)>::new())), Value::Identifier(x()), Value::Int(1)]),
         ("struct,ident_y,ident_x", vec![Value::Struct(struct_x_full()), Value::Identifier(y()), Value::Identifier(x())]),
+        // valid encoding of struct x {x:1,y:true}; as struct y {x string} it claims 2 bytes and has 1
         ("bytes", vec![Value::Bytes(vec![2, 1])]),
         ("err_bool,string,id", vec![Value::Result(Err(Box::new(Value::Bool(true)))), Value::String(text!("a")), Value::Id(BaseId::default())]),
         ("full_100_ints", (0..100).map(Value::Int).collect()),
@@ -248,6 +249,7 @@ pub fn contexts() -> Vec<(&'static str, CommandContext)> {
         ("action", CommandContext::Action(ActionContext { name: x(), head_id: CmdId::default() })),
         ("seal", CommandContext::Seal(SealContext { name: x(), head_id: CmdId::default() })),
         ("open", CommandContext::Open(OpenContext { name: x() })),
+        ("open_y", CommandContext::Open(OpenContext { name: y() })),
         ("policy", CommandContext::Policy(pc.clone())),
         ("recall", CommandContext::Recall(pc)),
     ]
@@ -372,6 +374,7 @@ pub fn template() -> Machine {
     let fx = Field { name: x(), ty: TypeKind::Int };
     let fy = Field { name: y(), ty: TypeKind::Bool };
     m.struct_defs.insert(StructDef { name: x(), items: vec![fx.clone(), fy.clone()] });
+    m.struct_defs.insert(StructDef { name: y(), items: vec![Field { name: x(), ty: TypeKind::String }] });
     m.fact_defs.insert(FactDef { name: x(), key: vec![fx.clone()], value: vec![fy.clone()], immutable: false });
     m.enum_defs.insert(EnumDef { name: y(), variants: vec![(x(), 0), (y(), 1)] });
     m.command_defs.insert(CommandDef { name: x(), persistence: Persistence::Persistent, attributes: vec![], fields: vec![fx, fy] });
@@ -1401,9 +1404,9 @@ pub fn space_by_name(name: &str, args: &Args) -> Box<dyn Space> {
     let thorough = args.tier == mcx::Tier::Thorough;
     match name {
         "seq" => Box::new(SeqSpace::new("seq", if thorough { &[1, 2, 3] } else { &[1, 2] }, None, false, false)),
-        "probe" => Box::new(SeqSpace::new("probe", &[], Some(&[(0, 3, 0), (6, 0, 1), (3, 2, 3)]), true, false)),
-        "seq3" => Box::new(SeqSpace::new("seq3", &[3], Some(&[(0, 3, 0), (1, 0, 1), (6, 2, 3)]), false, false)),
-        "codemap" => Box::new(SeqSpace::new("codemap", &[1, 2], Some(&[(0, 3, 0), (1, 3, 0)]), false, true)),
+        "probe" => Box::new(SeqSpace::new("probe", &[], Some(&[(0, 4, 0), (6, 0, 1), (3, 2, 3)]), true, false)),
+        "seq3" => Box::new(SeqSpace::new("seq3", &[3], Some(&[(0, 4, 0), (6, 2, 3), (8, 3, 0)]), false, false)),
+        "codemap" => Box::new(SeqSpace::new("codemap", &[1, 2], Some(&[(0, 4, 0), (1, 4, 0)]), false, true)),
         "subst" => Box::new(SubstSpace::new()),
         "args" => Box::new(ArgsSpace::new()),
         "modtrunc" => Box::new(ModTruncSpace::new(thorough)),
